@@ -155,9 +155,9 @@ structure ClsSt where
   portChanged : Bool := false
   pub : Bool := false
 
-/-- the loop body of `ClassifyNATFeature`.  Note `if baseIP == ""` tests the *string*, so an
-    address with an empty host (":80") keeps re-basing; ports are whatever `Atoi` accepts
-    (negative, zero, > 65535). -/
+/-- the loop body of `ClassifyNATFeature` (with f51e354: a port outside 1..65535 is an error).
+    Note `if baseIP == ""` tests the *string*, so an address with an empty host (":80") keeps
+    re-basing. -/
 def classifyLoop (localIPs : List Str) : List Str → ClsSt → Option ClsSt
   | [], st => some st
   | addr :: rest, st =>
@@ -167,12 +167,36 @@ def classifyLoop (localIPs : List Str) : List Str → ClsSt → Option ClsSt
       match atoi port with
       | none => none
       | some pn =>
-        if st.baseIP = [] then
+        if pn < 1 ∨ pn > 65535 then none           -- f51e354 "invalid port %d in address %s"
+        else if st.baseIP = [] then
           classifyLoop localIPs rest
             { st with baseIP := ip, basePort := port, portMax := pn, portMin := pn,
                       pub := st.pub || localIPs.contains ip }
         else
           classifyLoop localIPs rest
+            { st with portMax := if pn > st.portMax then pn else st.portMax,
+                      portMin := if pn < st.portMin then pn else st.portMin,
+                      ipChanged := st.ipChanged || decide (st.baseIP ≠ ip),
+                      portChanged := st.portChanged || decide (st.basePort ≠ port),
+                      pub := st.pub || localIPs.contains ip }
+
+/-- the loop of the PINNED tree (before f51e354): ports are whatever `Atoi` accepts (negative,
+    zero, > 65535).  Kept as documentation; used only by the `…Old` witnesses. -/
+def classifyLoopOld (localIPs : List Str) : List Str → ClsSt → Option ClsSt
+  | [], st => some st
+  | addr :: rest, st =>
+    match splitHostPort addr with
+    | none => none
+    | some (ip, port) =>
+      match atoi port with
+      | none => none
+      | some pn =>
+        if st.baseIP = [] then
+          classifyLoopOld localIPs rest
+            { st with baseIP := ip, basePort := port, portMax := pn, portMin := pn,
+                      pub := st.pub || localIPs.contains ip }
+        else
+          classifyLoopOld localIPs rest
             { st with portMax := if pn > st.portMax then pn else st.portMax,
                       portMin := if pn < st.portMin then pn else st.portMin,
                       ipChanged := st.ipChanged || decide (st.baseIP ≠ ip),
@@ -188,16 +212,25 @@ def behaviorOf (st : ClsSt) : Behavior :=
 
 def natTypeOf (b : Behavior) : NatType := if b = .noChange then .easy else .hard
 
+def featureOf (st : ClsSt) : Feature :=
+  let bh := behaviorOf st
+  let d : Int := if bh = .portChanged then st.portMax - st.portMin else 0
+  { natType := natTypeOf bh, behavior := bh, portsDifference := d,
+    regular := decide (bh = .portChanged ∧ d ≤ 5 ∧ d ≥ 1), pub := st.pub }
+
 /-- `ClassifyNATFeature(addresses, localIPs)`; `none` = error -/
 def classify (addrs localIPs : List Str) : Option Feature :=
   if addrs.length ≤ 1 then none else
   match classifyLoop localIPs addrs {} with
   | none => none
-  | some st =>
-    let bh := behaviorOf st
-    let d : Int := if bh = .portChanged then st.portMax - st.portMin else 0
-    some { natType := natTypeOf bh, behavior := bh, portsDifference := d,
-           regular := decide (bh = .portChanged ∧ d ≤ 5 ∧ d ≥ 1), pub := st.pub }
+  | some st => some (featureOf st)
+
+/-- `ClassifyNATFeature` of the pinned tree -/
+def classifyOld (addrs localIPs : List Str) : Option Feature :=
+  if addrs.length ≤ 1 then none else
+  match classifyLoopOld localIPs addrs {} with
+  | none => none
+  | some st => some (featureOf st)
 
 /-- `ClassifyFeatureCount([c, v])` = (easy, hard, regular-among-hard) -/
 def featureCount (fs : List Feature) : Nat × Nat × Nat :=
@@ -347,6 +380,7 @@ structure CMsg where               -- msg.NatHoleClient
 
 inductive ErrKind
   | none | noExist | authFailed | notAllowed | classifyClient | classifyVisitor
+  | notifyTimeout                  -- 8d80cd3 "notify xtcp server [..] timeout"
   deriving DecidableEq, Repr, Inhabited
 
 structure Resp where               -- msg.NatHoleResp with its NatHoleDetectBehavior
@@ -387,12 +421,13 @@ structure AnalysisOut where
   mode : Nat
   index : Nat
 
-/-- `Controller.analysis(session)`; `Except.error` carries the kind both parties are told -/
-def analysis (A : Analyzer) (sid : Str) (vm : VMsg) (cm : CMsg) : Except ErrKind (Analyzer × AnalysisOut) :=
-  match classify cm.mapped (parseIPs cm.assisted) with
+/-- `Controller.analysis(session)` over a classifier; `Except.error` carries the kind both parties are told -/
+def analysisWith (cls : List Str → List Str → Option Feature)
+    (A : Analyzer) (sid : Str) (vm : VMsg) (cm : CMsg) : Except ErrKind (Analyzer × AnalysisOut) :=
+  match cls cm.mapped (parseIPs cm.assisted) with
   | none => .error .classifyClient
   | some cf =>
-    match classify vm.mapped (parseIPs vm.assisted) with
+    match cls vm.mapped (parseIPs vm.assisted) with
     | none => .error .classifyVisitor
     | some vf =>
       let key := analysisKey vm vf cm cf
@@ -417,6 +452,14 @@ def analysis (A : Analyzer) (sid : Str) (vm : VMsg) (cm : CMsg) : Except ErrKind
           sendRandomPorts := r.cBeh.portsRandomNumber, listenRandomPorts := r.cBeh.listenRandomPorts }
       .ok (A', { vResp := vResp, cResp := cResp, key := key, mode := r.mode, index := r.index })
 
+/-- `Controller.analysis(session)` (current code) -/
+def analysis (A : Analyzer) (sid : Str) (vm : VMsg) (cm : CMsg) : Except ErrKind (Analyzer × AnalysisOut) :=
+  analysisWith classify A sid vm cm
+
+/-- `Controller.analysis(session)` of the pinned tree -/
+def analysisOld (A : Analyzer) (sid : Str) (vm : VMsg) (cm : CMsg) : Except ErrKind (Analyzer × AnalysisOut) :=
+  analysisWith classifyOld A sid vm cm
+
 /-! ## controller.go: sessions (small-step) -/
 
 structure Cfg where                -- ClientCfg
@@ -427,7 +470,7 @@ structure Cfg where                -- ClientCfg
 
 /-- where the `HandleVisitor` goroutine of a session stands -/
 inductive Phase
-  | notifying (chan : Nat)         -- blocked in `clientCfg.sidCh <- sid` (no timeout, no alternative)
+  | notifying (chan : Nat)         -- in the `select` on `clientCfg.sidCh <- sid` / time.After(NatHoleTimeout) (8d80cd3)
   | waiting                        -- in the `select` on notifyCh / time.After(NatHoleTimeout)
   | responding (vr cr : Resp) (vSent cSent : Bool) -- analysis done (vResp, cResp built), the two sender goroutines running
   | sleeping                       -- `time.Sleep(ReadTimeoutMs + 30000 ms)` before the deferred delete
@@ -457,6 +500,7 @@ inductive Label
   | precheck (m : VMsg) (t : Nat) (user : Str)     -- HandleVisitor, PreCheck branch
   | visitorLookup (sid : Str) (m : VMsg) (t : Nat) (user : Str)  -- the critical section of HandleVisitor
   | notify (sid : Str)                             -- the send on sidCh is received by the owner loop
+  | notifyTimeout (sid : Str)                      -- 8d80cd3 the send timed out: error to the visitor; deferred delete
   | clientMsg (m : CMsg) (t : Nat)                 -- HandleClient
   | wake (sid : Str)                               -- select takes notifyCh; analysis; responses built
   | timeout (sid : Str)                            -- select takes time.After; deferred delete
@@ -472,6 +516,9 @@ def chanAlive (cfgs : List (Str × Cfg)) (ch : Nat) : Bool := cfgs.any (fun p =>
 
 /-- `util.GetAuthKey(sk, ts)` before md5: token ++ decimal timestamp -/
 def authInput (sk : Str) (ts : Int) : Str := sk ++ fmtInt ts
+
+/-- `slices.Contains(allowUsers, user) || slices.Contains(allowUsers, "*")` -/
+def userAllowed (allow : List Str) (user : Str) : Bool := allow.contains user || allow.contains [Str.star]
 
 abbrev Out := List (Nat × Resp)
 
@@ -490,17 +537,18 @@ def step (s : State) : Label → Option (State × Out)
     match aget s.cfgs m.proxyName with
     | none => some (s, [(t, errResp m.tid .noExist)])
     | some cfg =>
-      if !cfg.allow.contains user && !cfg.allow.contains [Str.star] then some (s, [(t, errResp m.tid .notAllowed)])
+      if !userAllowed cfg.allow user then some (s, [(t, errResp m.tid .notAllowed)])
       else some (s, [(t, errResp m.tid .none)])
-  | .visitorLookup sid m t _user =>
+  | .visitorLookup sid m t user =>
     match aget s.sessions sid with
     | some _ => none                               -- assumption: GenSid does not repeat a live sid
     | none =>
       match aget s.cfgs m.proxyName with
       | none => some (s, [(t, errResp m.tid .noExist)])
       | some cfg =>
-        -- the signature is checked; `cfg.allow` is NOT consulted on this branch (as in the Go code)
         if m.signed ≠ authInput cfg.sk m.timestamp then some (s, [(t, errResp m.tid .authFailed)])
+        -- <C08 fix>: the allow list is consulted on this branch too
+        else if !userAllowed cfg.allow user then some (s, [(t, errResp m.tid .notAllowed)])
         else some ({ s with sessions := aput s.sessions sid { vmsg := m, vT := t, phase := .notifying cfg.chan } }, [])
   | .notify sid =>
     match aget s.sessions sid with
@@ -511,6 +559,14 @@ def step (s : State) : Label → Option (State × Out)
         else none
       | _ => none
     | none => none
+  | .notifyTimeout sid =>
+    match aget s.sessions sid with
+    | some sess =>
+      match sess.phase with
+      | .notifying _ =>
+        some ({ s with sessions := adel s.sessions sid }, [(sess.vT, errResp sess.vmsg.tid .notifyTimeout)])
+      | _ => none
+    | none => none
   | .clientMsg m t =>
     match aget s.sessions m.sid with
     | none => some (s, [])
@@ -519,8 +575,8 @@ def step (s : State) : Label → Option (State × Out)
   | .wake sid =>
     match aget s.sessions sid with
     | some sess =>
-      match sess.phase, sess.notified, sess.cmsg with
-      | .waiting, true, some cm =>
+      match sess.phase, sess.notified, sess.cmsg, sess.cT with
+      | .waiting, true, some cm, some _ =>         -- HandleClient sets clientMsg and clientTransporter together
         match analysis s.analyzer sid sess.vmsg cm with
         | .ok (A', o) =>
           some ({ s with analyzer := A',
@@ -531,7 +587,7 @@ def step (s : State) : Label → Option (State × Out)
           some ({ s with sessions := aput s.sessions sid
                            { sess with notified := false,
                                        phase := .responding (errResp sess.vmsg.tid e) (errResp cm.tid e) false false } }, [])
-      | _, _, _ => none
+      | _, _, _, _ => none
     | none => none
   | .timeout sid =>
     match aget s.sessions sid with
@@ -579,6 +635,50 @@ def run : State → List Label → Option (State × Out)
     | none => none
     | some (s', o) =>
       match run s' ls with
+      | none => none
+      | some (s'', o') => some (s'', o ++ o')
+
+/-! ## the pinned tree (before f51e354, 8d80cd3 and the C08 allow-list fix), kept as documentation -/
+
+/-- `step` of the pinned tree: no timeout on the notify send, the session branch of HandleVisitor
+    does not consult `allowUsers`, the analysis accepts any port `Atoi` accepts -/
+def stepOld (s : State) : Label → Option (State × Out)
+  | .notifyTimeout _ => none
+  | .visitorLookup sid m t _user =>
+    match aget s.sessions sid with
+    | some _ => none
+    | none =>
+      match aget s.cfgs m.proxyName with
+      | none => some (s, [(t, errResp m.tid .noExist)])
+      | some cfg =>
+        if m.signed ≠ authInput cfg.sk m.timestamp then some (s, [(t, errResp m.tid .authFailed)])
+        else some ({ s with sessions := aput s.sessions sid { vmsg := m, vT := t, phase := .notifying cfg.chan } }, [])
+  | .wake sid =>
+    match aget s.sessions sid with
+    | some sess =>
+      match sess.phase, sess.notified, sess.cmsg, sess.cT with
+      | .waiting, true, some cm, some _ =>
+        match analysisOld s.analyzer sid sess.vmsg cm with
+        | .ok (A', o) =>
+          some ({ s with analyzer := A',
+                         sessions := aput s.sessions sid
+                           { sess with notified := false, key := o.key, mode := o.mode, index := o.index,
+                                       phase := .responding o.vResp o.cResp false false } }, [])
+        | .error e =>
+          some ({ s with sessions := aput s.sessions sid
+                           { sess with notified := false,
+                                       phase := .responding (errResp sess.vmsg.tid e) (errResp cm.tid e) false false } }, [])
+      | _, _, _, _ => none
+    | none => none
+  | l => step s l
+
+def runOld : State → List Label → Option (State × Out)
+  | s, [] => some (s, [])
+  | s, l :: ls =>
+    match stepOld s l with
+    | none => none
+    | some (s', o) =>
+      match runOld s' ls with
       | none => none
       | some (s'', o') => some (s'', o ++ o')
 
